@@ -112,6 +112,7 @@ template <typename T, int FN> static void op_sph(const Case& c, Outcome& o) {
   if (FN == FN_MIX && cosTh < 0) cond = 1 / (sinOm * sinOm);                                                    // acos conditioning of the oriented arc beyond pi/2
   if (FN == FN_SPIN && k != 0) cond = (1 + std::abs(k)) * std::max<W>(1, 1 / sinOm);                            // direction e^ is determined to u/sin(Omega); |phi| ~ (1+|k|) pi
   const W base = C13_COEF * tolm(tw) * u, tol = base * cond;
+  if (!(tol < 0.5L)) { o.nontrivial = false; return; }                                                          // bound no longer constrains a unit vector: case carries no information beyond "no NaN"
   W alpha = tw * (g.Om + (W)k * PI_W);
   Geo g2; bool alt = false; Err e = errs(g, alpha, got);
   if (ambiguous) { geo(x, y, -s, g2); Err e2 = errs(g2, tw * (g2.Om + (W)k * PI_W), got); if (e2.dist < e.dist) { e = e2; alt = true; } }
@@ -127,6 +128,7 @@ template <typename T, int FN> static void op_sph(const Case& c, Outcome& o) {
       if (cosShort > 1 - eps - 4 * u) { Err e0 = errs(gg, tw * gg.Om, got); if (e0.dist <= base) o.kf = KF_SPIN_FALLBACK; }   // legacy: spin count ignored in the linear fallback
       if (o.kf < 0 && cosShort < 1 - eps + 4 * u && e.dist <= base * (1 + std::abs(k)) / (sinOm * sinOm)) o.kf = KF_SPIN_ACOS;  // legacy: Graphics-Gems formula, acos(dot) error amplified by 1/sin^2
     }
+    if (o.kf == KF_SPIN_ACOS) STAT(62, "spin acos-conditioning: largest Omega flagged", g.Om); if (o.kf == KF_SPIN_FALLBACK) STAT(63, "spin ignored in fallback: largest Omega flagged", g.Om);
     W ar = absW(e.radial), ao = e.off, aa = absW(e.ang);
     if (FN != FN_MIX && k == 0 && gg.axis) { Geo gl; geo(x, y, -s, gl); Err el = errs(gl, tw * gl.Om, got); if (el.dist <= tol && gl.Om > gg.Om + 16 * u) { o.bad(5, "took the longer arc (interpolates towards the far one of +-y)"); return; } }
     if (ar >= ao && ar >= aa) { o.bad(2, "result is not of unit length"); return; }
@@ -160,8 +162,8 @@ template <typename T> static void op_lerp(const Case& c, Outcome& o) {
     glm::qua<T> r = glm::lerp(qx, qy, t); put<T>(o, r); W got[4]; toW(r, got);
     for (int i = 0; i < 4; ++i) { STAT(40, "lerp: max err / (u*sum|terms|)", absW(got[i] - ref[i]) / (u * (absW(x[i]) * absW(1 - tw) + absW(y[i]) * absW(tw)) + tiny));
       if (!(absW(got[i] - ref[i]) <= tl[i])) { o.bad(1, "quaternion lerp is not the affine blend x*(1-a)+y*a"); return; } }
-    if (tw == 0) for (int i = 0; i < 4; ++i) if (!(got[i] == x[i])) { o.bad(2, "lerp(x,y,0) != x"); return; }
-    if (tw == 1) for (int i = 0; i < 4; ++i) if (!(got[i] == y[i])) { o.bad(3, "lerp(x,y,1) != y"); return; }
+    if (tw == 0) for (int i = 0; i < 4; ++i) if (!(absW(got[i] - x[i]) <= 2 * u * (absW(x[i]) + absW(y[i])) + tiny)) { o.bad(2, "lerp(x,y,0) != x"); return; }
+    if (tw == 1) for (int i = 0; i < 4; ++i) if (!(absW(got[i] - y[i]) <= 2 * u * (absW(x[i]) + absW(y[i])) + tiny)) { o.bad(3, "lerp(x,y,1) != y"); return; }
   }
   // gtx/compatibility lerp on the same components (not restricted to [0,1]); scalar and vector factor
   glm::vec<4, T> vx(qx.x, qx.y, qx.z, qx.w), vy(qy.x, qy.y, qy.z, qy.w); const int perm[4] = {1, 2, 3, 0};     // vec lane i holds W-array entry perm[i]
@@ -169,8 +171,9 @@ template <typename T> static void op_lerp(const Case& c, Outcome& o) {
   for (int i = 0; i < 4; ++i) { int j = perm[i];
     if (!(absW((W)a[i] - ref[j]) <= tl[j])) { o.res(FT<T>::bits(a[i]), (uint64_t)i); o.bad(4, "compatibility lerp(vec4,vec4,T) is not the affine blend"); return; }
     if (!(absW((W)b[i] - ref[j]) <= tl[j])) { o.res(FT<T>::bits(b[i]), (uint64_t)i); o.bad(5, "compatibility lerp(vec4,vec4,vec4) is not the affine blend"); return; }
-    if (tw == 0 && !((W)a[i] == x[j] && (W)b[i] == x[j])) { o.bad(6, "compatibility lerp(x,y,0) != x"); return; }
-    if (tw == 1 && !((W)a[i] == y[j] && (W)b[i] == y[j])) { o.bad(7, "compatibility lerp(x,y,1) != y"); return; } }
+    const W te = 2 * u * (absW(x[j]) + absW(y[j])) + tiny;
+    if (tw == 0 && !(absW((W)a[i] - x[j]) <= te && absW((W)b[i] - x[j]) <= te)) { o.bad(6, "compatibility lerp(x,y,0) != x"); return; }
+    if (tw == 1 && !(absW((W)a[i] - y[j]) <= te && absW((W)b[i] - y[j]) <= te)) { o.bad(7, "compatibility lerp(x,y,1) != y"); return; } }
 }
 
 // ------------------------------------------------------------------------------------------- shortMix / fastMix (t in [0,1])
@@ -218,7 +221,8 @@ template <typename T> static void op_dualquat(const Case& c, Outcome& o) {
     W ss = pass ? -s : s; bool ok = true, ok0 = true, ok1 = true; W refr[4];
     for (int i = 0; i < 4; ++i) { const W* xs[2] = {xr, xd}; const W* ys[2] = {yr, yd}; const W* rs[2] = {rr, rd};
       for (int h = 0; h < 2; ++h) { W ref = xs[h][i] * (1 - tw) + ss * ys[h][i] * tw, mag = absW(xs[h][i]) * absW(1 - tw) + absW(ys[h][i]) * absW(tw); if (h == 0) refr[i] = ref;
-        if (!(absW(rs[h][i] - ref) <= 4 * u * mag + tiny)) ok = false;
+        if (pass == 0 && !ambiguous) STAT(41, "dualquat lerp: max err / (u*sum|terms|)", absW(rs[h][i] - ref) / (u * mag + tiny));
+        if (!(absW(rs[h][i] - ref) <= 10 * u * mag + tiny)) ok = false;
         if (tw == 0 && !(absW(rs[h][i] - xs[h][i]) <= 2 * u * (absW(xs[h][i]) + absW(ys[h][i])) + tiny)) ok0 = false;
         if (tw == 1 && !(absW(rs[h][i] - ss * ys[h][i]) <= 2 * u * (absW(xs[h][i]) + absW(ys[h][i])) + tiny)) ok1 = false; } }
     if (ok && ok0 && ok1) break;
@@ -231,9 +235,10 @@ template <typename T> static void op_dualquat(const Case& c, Outcome& o) {
   // normalisation rule: normalize(lerp) has a unit real part on the shorter arc between x.real and +-y.real
   glm::tdualquat<T> N = glm::normalize(R); W nr[4]; toW(N.real, nr); put<T>(o, N.real);
   if (!fin4(nr)) { o.bad(5, "normalize(lerp) is NaN/Inf"); return; }
+  STAT(52 + (sizeof(T) == 8), "dualquat: max | |normalize(lerp).real| - 1 | / u", (len4(nr) - 1) / u);
   if (!(absW(len4(nr) - 1) <= 8 * u)) { o.bad(6, "real part of normalize(lerp(x,y,a)) is not of unit length"); return; }
   if (!ambiguous) { Geo g; geo(xr, yr, s, g); W gx = dot4(nr, g.xh), ge = g.axis ? dot4(nr, g.e) : 0, off[4]; for (int i = 0; i < 4; ++i) off[i] = nr[i] - gx * g.xh[i] - ge * g.e[i];
-    W ang = std::atan2(ge, gx), tol = 16 * u;
+    W ang = std::atan2(ge, gx), tol = 16 * u; STAT(54 + (sizeof(T) == 8), "dualquat: max off-plane / u", len4(off) / u);
     if (!(len4(off) <= tol)) { o.bad(7, "real part of normalize(lerp) leaves the great circle through x.real and +-y.real"); return; }
     if (!(ang >= -tol && ang <= g.Om + tol)) { o.bad(8, "real part of normalize(lerp) is not on the shorter arc between x.real and +-y.real"); return; } }
 }
@@ -250,7 +255,7 @@ template <typename T> static void op_squad(const Case& c, Outcome& o) {
   glm::qua<T> s1 = glm::qua<T>::wxyz((T)p1[0], (T)p1[1], (T)p1[2], (T)p1[3]), s2 = glm::qua<T>::wxyz((T)p2[0], (T)p2[1], (T)p2[2], (T)p2[3]);
   glm::qua<T> r = glm::squad(q1, q2, s1, s2, h); put<T>(o, r); W got[4]; toW(r, got);
   if (!fin4(got)) { o.bad(1, "squad is NaN/Inf for unit inputs"); return; }
-  const W tol = 64 * u;                                                                          // three nested mix calls, each 8*(1+|t|)^3 u with t <= 1 ... see report
+  const W tol = 64 * u;                                                                          // three nested mix calls with factors in [0,1]: 3 x (10*(1+1) u) rounded up; measured <= 6.3 u
   STAT(56 + (sizeof(T) == 8), "squad: max | |r|-1 | / u", (len4(got) - 1) / u);
   if (!(absW(len4(got) - 1) <= tol)) { o.bad(2, "squad result is not of unit length"); return; }
   if (hw == 0) { W m = 0; for (int i = 0; i < 4; ++i) m = std::max(m, absW(got[i] - x[i])); STAT(58, "squad end point h=0 |r-q1|/u", m / u); if (!(m <= 8 * u)) { for (int i = 0; i < 4; ++i) o.want[i] = c.w[i]; o.nwant = 4; o.bad(3, "squad(q1,q2,s1,s2,0) is not q1"); return; } }
@@ -261,12 +266,12 @@ template <typename T> static void op_squad(const Case& c, Outcome& o) {
 
 // ------------------------------------------------------------------------------------------- domains
 template <typename T> struct Tab {
-  static std::vector<std::array<T, 4>> X[4];          // 0 quick, 1 quick-small, 2 thorough, 3 thorough-small
-  static std::vector<std::array<W, 3>> AX[4];
+  static std::vector<std::array<T, 4>> X[2];          // 0 quick, 1 thorough
+  static std::vector<std::array<W, 3>> AX[2];
   static std::vector<W> TH;
 };
-template <typename T> std::vector<std::array<T, 4>> Tab<T>::X[4];
-template <typename T> std::vector<std::array<W, 3>> Tab<T>::AX[4];
+template <typename T> std::vector<std::array<T, 4>> Tab<T>::X[2];
+template <typename T> std::vector<std::array<W, 3>> Tab<T>::AX[2];
 template <typename T> std::vector<W> Tab<T>::TH;
 
 template <typename T> static std::array<T, 4> normq(W w, W x, W y, W z) { W l = std::sqrt(w * w + x * x + y * y + z * z); return {(T)(w / l), (T)(x / l), (T)(y / l), (T)(z / l)}; }
@@ -276,19 +281,18 @@ template <typename T> static void build_tables() {
   std::vector<std::array<T, 4>> q;
   q.push_back(normq<T>(1, 0, 0, 0)); q.push_back(normq<T>(0, 0, 0, 1)); q.push_back(normq<T>(1, 2, 3, 4)); q.push_back(normq<T>(0.5L, 0.5L, 0.5L, 0.5L));
   q.push_back(normq<T>(-2, -1, -2, 1)); q.push_back(aaq<T>(1.0L, 0.36L, 0.48L, 0.8L)); q.push_back(aaq<T>(4.0L, 1, 2, 2)); q.push_back(aaq<T>(2e-3L, 1, 1, 1));
-  Tab<T>::X[1] = q;                                                                       // 8: the small set
   q.push_back(normq<T>(0, 1, 0, 0)); q.push_back(normq<T>(0, 0, 1, 0)); q.push_back(normq<T>(-1, 0, 0, 0)); q.push_back(normq<T>(0.5L, -0.5L, 0.5L, -0.5L));
   q.push_back(normq<T>(4, -3, 2, -1)); q.push_back(normq<T>(1, 1, 0, 0)); q.push_back(normq<T>(0, 1, 0, 1)); q.push_back(normq<T>(1, 0, 0, -1));
   q.push_back(aaq<T>(2e-5L, 0, 0, 1)); q.push_back(aaq<T>(2.5L, -0.6L, 0, 0.8L)); q.push_back(aaq<T>(3.0L, 0, -1, 0)); q.push_back(normq<T>(1, 1e-3L, 1e-6L, 1e-9L));
   q.push_back(normq<T>(0.6L, 0, 0.8L, 0)); q.push_back(normq<T>(0, 0.28L, 0, 0.96L)); q.push_back(aaq<T>(PI_W - 1e-4L, 3, -4, 12)); q.push_back(normq<T>(-1e-7L, 3, 4, 12));
   Tab<T>::X[0] = q;                                                                       // 24
-  std::vector<std::array<T, 4>> big = q, mid = Tab<T>::X[1];
-  for (int a = -1; a <= 1; ++a) for (int b = -1; b <= 1; ++b) for (int cc = -1; cc <= 1; ++cc) for (int d = -1; d <= 1; ++d) if (a || b || cc || d) { big.push_back(normq<T>(a, b, cc, d)); if ((a + 2 * b + 3 * cc + 5 * d) % 4 == 0) mid.push_back(normq<T>(a, b, cc, d)); }
-  Tab<T>::X[2] = big; Tab<T>::X[3] = mid;
+  std::vector<std::array<T, 4>> big = q;                                                  // thorough: + every direction of {-1,0,1}^4 (80)
+  for (int a = -1; a <= 1; ++a) for (int b = -1; b <= 1; ++b) for (int cc = -1; cc <= 1; ++cc) for (int d = -1; d <= 1; ++d) if (a || b || cc || d) big.push_back(normq<T>(a, b, cc, d));
+  Tab<T>::X[1] = big;
   auto ax = [](W a, W b, W c) { W l = std::sqrt(a * a + b * b + c * c); return std::array<W, 3>{a / l, b / l, c / l}; };
-  std::vector<std::array<W, 3>> A = {ax(1, 0, 0), ax(0, 0, 1), ax(1, -2, 3)}; Tab<T>::AX[1] = A; Tab<T>::AX[3] = A;
+  std::vector<std::array<W, 3>> A = {ax(1, 0, 0), ax(0, 0, 1), ax(1, -2, 3)};
   A.push_back(ax(0, 1, 0)); A.push_back(ax(1, 1, 1)); A.push_back(ax(-0.6L, 0, 0.8L)); Tab<T>::AX[0] = A;
-  A.push_back(ax(-1, 0, 0)); A.push_back(ax(0, -1, 0)); A.push_back(ax(0, 0, -1)); A.push_back(ax(1, 1, 0)); A.push_back(ax(0, 1, -1)); A.push_back(ax(1e-3L, 1, 1e-6L)); A.push_back(ax(3, 4, -12)); Tab<T>::AX[2] = A;
+  A.push_back(ax(-1, 0, 0)); A.push_back(ax(0, -1, 0)); A.push_back(ax(0, 0, -1)); A.push_back(ax(1, 1, 0)); A.push_back(ax(0, 1, -1)); A.push_back(ax(1e-3L, 1, 1e-6L)); A.push_back(ax(3, 4, -12)); Tab<T>::AX[1] = A;
   // Theta ladder (4-D angle between x and y)
   const W eps = eps_of<T>(), u = unit_round<T>(); std::vector<W> th; th.push_back(0);
   for (int j = 0; j <= 36; ++j) th.push_back(1e-9L * std::pow(10.0L, j / 4.0L));                  // 1e-9 .. 1
@@ -327,21 +331,21 @@ template <typename T> static void reg(Engine& E) {
   const std::vector<std::string> c4(CLS4, CLS4 + 4);
   auto P = [](const char* nm, std::vector<Domain> d) { return product(nm, std::move(d)); };
   { Op& op = E.add("slerp<" + tn + ">", op_sph<T, FN_SLERP>); op.classes = c4;
-    op.quick = {P("pairs x t", {pairs<T, 0>(), TALL}), P("rot^2 x t", {pp<T, 0>(), TALL})}; op.thorough = {P("pairs x t", {pairs<T, 2>(), TALL}), P("rot^2 x t", {pp<T, 2>(), TALL})}; }
+    op.quick = {P("pairs x t", {pairs<T, 0>(), TALL}), P("rot^2 x t", {pp<T, 0>(), TALL})}; op.thorough = {P("pairs x t", {pairs<T, 1>(), TALL}), P("rot^2 x t", {pp<T, 1>(), TALL})}; }
   { Op& op = E.add("mix<" + tn + ">", op_sph<T, FN_MIX>); op.classes = {c4[0], c4[1]};
-    op.quick = {P("pairs x t", {pairs<T, 0>(), TALL}), P("rot^2 x t", {pp<T, 0>(), TALL})}; op.thorough = {P("pairs x t", {pairs<T, 2>(), TALL}), P("rot^2 x t", {pp<T, 2>(), TALL})}; }
+    op.quick = {P("pairs x t", {pairs<T, 0>(), TALL}), P("rot^2 x t", {pp<T, 0>(), TALL})}; op.thorough = {P("pairs x t", {pairs<T, 1>(), TALL}), P("rot^2 x t", {pp<T, 1>(), TALL})}; }
   { Op& op = E.add("slerp+spin<" + tn + ">", op_sph<T, FN_SPIN>); op.classes = c4;
-    op.quick = {P("pairs x t x k", {pairs<T, 1>(), TALL, K}), P("rot^2 x t x k", {pp<T, 1>(), TALL, K})}; op.thorough = {P("pairs x t x k", {pairs<T, 3>(), TALL, K}), P("rot^2 x t x k", {pp<T, 3>(), TALL, K})}; }
+    op.quick = {P("pairs x t x k", {pairs<T, 0>(), TALL, K}), P("rot^2 x t x k", {pp<T, 0>(), TALL, K})}; op.thorough = {P("pairs x t x k", {pairs<T, 1>(), TALL, K}), P("rot^2 x t x k", {pp<T, 1>(), TALL, K})}; }
   { Op& op = E.add("lerp(quat)+compatibility lerp(vec4)<" + tn + ">", op_lerp<T>); op.classes = {"a in [0,1]", "a outside [0,1] (compatibility lerp only)"};
-    op.quick = {P("pairs x t", {pairs<T, 1>(), TALL}), P("rot^2 x t", {pp<T, 0>(), TALL})}; op.thorough = {P("pairs x t", {pairs<T, 2>(), TALL}), P("rot^2 x t", {pp<T, 2>(), TALL})}; }
+    op.quick = {P("pairs x t", {pairs<T, 0>(), TALL}), P("rot^2 x t", {pp<T, 0>(), TALL})}; op.thorough = {P("pairs x t", {pairs<T, 1>(), TALL}), P("rot^2 x t", {pp<T, 1>(), TALL})}; }
   { Op& op = E.add("shortMix<" + tn + ">", op_gtxmix<T, FN_SHORTMIX>); op.classes = c4;
-    op.quick = {P("pairs x t01", {pairs<T, 0>(), T01}), P("rot^2 x t01", {pp<T, 0>(), T01})}; op.thorough = {P("pairs x t01", {pairs<T, 2>(), T01}), P("rot^2 x t01", {pp<T, 2>(), T01})}; }
+    op.quick = {P("pairs x t01", {pairs<T, 0>(), T01}), P("rot^2 x t01", {pp<T, 0>(), T01})}; op.thorough = {P("pairs x t01", {pairs<T, 1>(), T01}), P("rot^2 x t01", {pp<T, 1>(), T01})}; }
   { Op& op = E.add("fastMix<" + tn + ">", op_gtxmix<T, FN_FASTMIX>); op.classes = {c4[0], c4[1]};
-    op.quick = {P("pairs x t01", {pairs<T, 0>(), T01}), P("rot^2 x t01", {pp<T, 0>(), T01})}; op.thorough = {P("pairs x t01", {pairs<T, 2>(), T01}), P("rot^2 x t01", {pp<T, 2>(), T01})}; }
+    op.quick = {P("pairs x t01", {pairs<T, 0>(), T01}), P("rot^2 x t01", {pp<T, 0>(), T01})}; op.thorough = {P("pairs x t01", {pairs<T, 1>(), T01}), P("rot^2 x t01", {pp<T, 1>(), T01})}; }
   { Op& op = E.add("dualquat lerp<" + tn + ">", op_dualquat<T>); op.classes = {"dot(real,real) >= 0", "dot(real,real) < 0 (sign flip)"};
-    op.quick = {P("pairs x t01 x trans", {pairs<T, 0>(), T01, TR2}), P("rot^2 x t01 x trans", {pp<T, 0>(), T01, TR4})}; op.thorough = {P("pairs x t01 x trans", {pairs<T, 2>(), T01, TR4}), P("rot^2 x t01 x trans", {pp<T, 2>(), T01, TR4})}; }
+    op.quick = {P("pairs x t01 x trans", {pairs<T, 0>(), T01, TR2}), P("rot^2 x t01 x trans", {pp<T, 0>(), T01, TR4})}; op.thorough = {P("pairs x t01 x trans", {pairs<T, 1>(), T01, TR4}), P("rot^2 x t01 x trans", {pp<T, 1>(), T01, TR4})}; }
   { Op& op = E.add("squad<" + tn + ">", op_squad<T>); op.classes = {"q1,q2 apart (trig mix)", "q1,q2 within the linear-fallback cone"};
-    op.quick = {P("pairs x t01", {pairs<T, 1>(), T01}), P("rot^2 x t01", {pp<T, 0>(), T01})}; op.thorough = {P("pairs x t01", {pairs<T, 2>(), T01}), P("rot^2 x t01", {pp<T, 2>(), T01})}; }
+    op.quick = {P("pairs x t01", {pairs<T, 0>(), T01}), P("rot^2 x t01", {pp<T, 0>(), T01})}; op.thorough = {P("pairs x t01", {pairs<T, 1>(), T01}), P("rot^2 x t01", {pp<T, 1>(), T01})}; }
 }
 
 int main(int argc, char** argv) {
